@@ -293,3 +293,67 @@ Theorem C02_checked_check_sum : forall f m soi, f = fmt32 \/ f = fmt64 -> mem_ok
   check_sum_chk f m = Ok (check_sum f m).
 Proof. exact CheckedProofs.check_sum_chk_eq. Qed.
 Print Assumptions C02_checked_check_sum.
+
+(* ---- component `util`: the utility / formatting layer never panics, or panics exactly on the stated arguments ---- *)
+From PV.Model Require Util.
+From PV.Spec Require UtilSpec.
+From PV.Proofs Require UtilText UtilProofs UtilSlow.
+
+(* no panic, no UB fault, no OutOfFuel on ALL inputs: UTF-16 decoding, FmtUtf16 Display / Debug, from_words, the
+   accessors of a non-empty value, strn / wstrn / trimn / parsen / split_f, the GUID formatters, Ptr::fmt and the hex
+   traits, to_strs (in particular 1 << i never shifts by the width or more) *)
+Theorem C02_util_total :
+  (forall ws, no_fault (Util.decode_all ws)) /\
+  (forall ws, no_fault (Util.fmt_display ws)) /\
+  (forall ws, UtilSpec.units_ok ws -> no_fault (Util.fmt_debug ws)) /\
+  (forall words, UtilSpec.units_ok words -> no_fault (Util.from_words words)) /\
+  (forall w0 t, no_fault (Util.as_ref (w0 :: t)) /\ no_fault (Util.to_string (w0 :: t)) /\ forall cs, no_fault (Util.eq_str (w0 :: t) cs)) /\
+  (forall buf, no_fault (Util.strn buf) /\ no_fault (Util.wstrn buf) /\ no_fault (Util.trimn buf) /\ forall valid, no_fault (Util.parsen valid buf)) /\
+  (forall p l, no_fault (Util.split_f p l)) /\
+  (forall upper dashed b, length b = 16%nat -> bytes_ok b -> no_fault (Util.guid_fmt upper dashed (Util.guid_of_bytes b))) /\
+  (forall bits va, bits = 32 \/ bits = 64 -> va < 2 ^ bits -> no_fault (Util.ptr_fmt bits va)) /\
+  (forall upper alt width va, va < 2 ^ 64 -> no_fault (Util.ptr_hex upper alt width va)) /\
+  (forall checks size t x, size * 8 < W32 -> no_fault (Util.to_strs checks size t x)).
+Proof. exact UtilProofs.util_total. Qed.
+Print Assumptions C02_util_total.
+
+(* WideStr::from_str panics exactly on an empty buffer (index) and - in a build that checks overflow - when
+   min(buffer.len() - 1, number of UTF-16 code units) reaches 65536 (the u16 counter); otherwise its value is stated *)
+Theorem C02_util_from_str_faults_iff : forall checks s buffer,
+  ((exists f, Util.from_str checks s buffer = Fault f) <-> UtilSpec.from_str_faults checks s buffer = true) /\
+  (UtilSpec.from_str_faults checks s buffer = true ->
+     Util.from_str checks s buffer = Fault (if lenN buffer =? 0 then PIndex else POverflow)) /\
+  (UtilSpec.from_str_faults checks s buffer = false -> Util.from_str checks s buffer = Ok (UtilSpec.from_str_spec checks s buffer)).
+Proof. exact UtilProofs.from_str_faults_iff. Qed.
+Print Assumptions C02_util_from_str_faults_iff.
+
+Theorem C02_util_from_str_witnesses :
+  Util.from_str true [97] [] = Fault PIndex /\
+  Util.from_str true (repeat 97 (N.to_nat 65536)) (repeat 0 (N.to_nat 65537)) = Fault POverflow /\
+  match Util.from_str true (repeat 97 (N.to_nat 65535)) (repeat 0 (N.to_nat 65536)) with
+  | Ok (n :: t) => (n =? 65535) && UtilSpec.wide_invb (n :: t) | _ => false end = true /\
+  match Util.from_str false (repeat 97 (N.to_nat 65536)) (repeat 0 (N.to_nat 65537)) with
+  | Ok (n :: t) => (n =? 0) && negb (UtilSpec.wide_invb (n :: t)) | _ => false end = true /\
+  Util.from_str true [97] [0; 0; 0] = Ok [1; 97; 0] /\ UtilSpec.wide_invb [1; 97; 0] = false.
+Proof. exact UtilSlow.from_str_witnesses. Qed.
+Print Assumptions C02_util_from_str_witnesses.
+
+(* Ptr::member(va, offset) panics exactly when va + offset does not fit the address type (checked build) *)
+Theorem C02_util_ptr_member_faults_iff : forall checks bits va offset,
+  (exists f, Util.ptr_member checks bits va offset = Fault f) <-> (checks = true /\ 2 ^ bits <= va + offset).
+Proof. exact UtilProofs.ptr_member_faults_iff. Qed.
+Print Assumptions C02_util_ptr_member_faults_iff.
+
+(* Ptr::at(i) / Pir::at(i) panic exactly when i * size_of::<T>() overflows usize or va + (the product truncated to the
+   address type) overflows the address type *)
+Theorem C02_util_ptr_at_faults_iff : forall checks bits va i size, bits = 32 \/ bits = 64 ->
+  ((exists f, Util.ptr_at checks bits va i size = Fault f) <->
+   (checks = true /\ (W64 <= i * size \/ 2 ^ bits <= va + (i * size) mod 2 ^ bits))).
+Proof. exact UtilProofs.ptr_at_faults_iff. Qed.
+Print Assumptions C02_util_ptr_at_faults_iff.
+
+Theorem C02_util_ptr_at_truncation_witness :
+  Util.ptr_at true 32 4096 1073741824 4 = Ok 4096 /\ Util.ptr_at true 64 4096 1073741824 4 = Ok 4294971392 /\
+  Util.ptr_at true 32 0 2305843009213693951 8 = Ok 4294967288 /\ Util.ptr_at true 64 0 2305843009213693952 8 = Fault POverflow.
+Proof. exact UtilProofs.ptr_at_truncation_witness. Qed.
+Print Assumptions C02_util_ptr_at_truncation_witness.
